@@ -30,6 +30,7 @@
 #define DECODINGTABLEBUILDER_H_
 
 #define TABLEBITSO 16
+#define MAXSUBSTR 15 // Largest length encoded in the control byte
 
 #include <vector>
 
@@ -110,6 +111,18 @@ public:
 
 protected:
   uint maxv; // Max value in the code
+
+  /** Makes the table valid for decoding any chunk in any context. The
+      chunks indexed while encoding are those found by a decoder which goes
+      exactly through the same states, but the real one reads (up to)
+      TABLEBITSO bits beyond the end of each string, so it also looks up
+      chunks depending on the following bits (padding bits, the next string,
+      the next bucket or the end of the sequence). Thus, i) *special*
+      substrings are set to jump the bits which really encode them; ii) the
+      substrings which do not fit in the control byte are shortened; and
+      iii) any chunk which has not been indexed is decoded as the symbol
+      whose codeword prefixes it. */
+  void completeTableSubstr();
 };
 
 #endif /* DECODINGTABLEBUILDER_H_ */
